@@ -725,6 +725,9 @@ func (s *SimStream) Read(p []byte) (int, error) {
 	}
 	s.zeroStreak = 0
 	copy(p, s.layout.Data[s.off:s.off+n])
+	if s.Info.BadFrameEnd > 0 && s.off < s.Info.BadFrameEnd && s.off+n >= s.Info.BadFrameEnd {
+		d.FaultsFired[FaultFrame]++
+	}
 	s.off += n
 	s.Info.Delivered = s.off
 	var err error
